@@ -65,6 +65,9 @@ Frags ==
 
 FragChars(f) == Split(f[1])
 FragClasses(f) == [i \in 1..Len(f[1]) |-> f[2]]
+\* UTF-8 width of the character the driver substitutes for a class
+ClassWidth(k) == CASE k = 0 -> 1 [] k = 4 -> 4 [] k = 7 -> 3 [] OTHER -> 2
+FragWidths(f) == [i \in 1..Len(f[1]) |-> ClassWidth(f[2])]
 
 \* ---- the pending step and whether its result is final
 Margin == 2
@@ -76,14 +79,14 @@ StepFinal(st, st1, txt, closed) ==
   closed \/ Max2(Max2(st1.la, st1.pos + Margin), st.pos + Margin) <= TLen(txt)
 
 Init ==
-  /\ T = [cs |-> <<>>, cc |-> <<>>] /\ fends = <<>> /\ nfr = 0 /\ eof = FALSE
+  /\ T = [cs |-> <<>>, cc |-> <<>>, cw |-> <<>>] /\ fends = <<>> /\ nfr = 0 /\ eof = FALSE
   /\ S = InitState(0) /\ phase = "lex"
 
 Extend ==
   /\ ~eof /\ phase = "lex"
   /\ ~StepFinal(S, Pending(S, T, FALSE), T, FALSE)
   /\ \/ /\ nfr < MaxFrags
-        /\ \E f \in Frags : /\ T' = [cs |-> T.cs \o FragChars(f), cc |-> T.cc \o FragClasses(f)]
+        /\ \E f \in Frags : /\ T' = [cs |-> T.cs \o FragChars(f), cc |-> T.cc \o FragClasses(f), cw |-> T.cw \o FragWidths(f)]
                               /\ fends' = Append(fends, TLen(T) + Len(f[1]))
         /\ nfr' = nfr + 1 /\ eof' = FALSE
      \/ /\ eof' = TRUE /\ UNCHANGED <<T, fends, nfr>>
@@ -180,6 +183,41 @@ DoneShape ==                                     \* C02/C10 at the end: EOF last
   phase = "done" => /\ S.modes = <<>> /\ S.toks # <<>> /\ S.toks[Len(S.toks)].ty = "EOF"
                     /\ S.toks[Len(S.toks)].c = TLen(T)
                     /\ \A i \in 1..Len(S.toks) - 1 : S.toks[i].ty # "EOF"
+\* C07 (design level): the string payload ranges of the tokens emitted so far are ordered, contiguous
+\* and cover the literal buffer exactly - at every step boundary, also right after a rollback
+PayToks == SelectSeq(S.toks, LAMBDA t : t.pk = "s")
+LitPartition ==
+  LET P == PayToks IN
+  /\ (P = <<>> => S.nlit = 0)
+  /\ (P # <<>> => (P[1].ps = 0 /\ P[Len(P)].pe = S.nlit))
+  /\ \A i \in 1..Len(P) : P[i].ps <= P[i].pe /\ (i > 1 => P[i].ps = P[i-1].pe)
+\* C10 (design level) on the tokens of the representative behaviour, when lexing is done:
+\* string expressions are closed, a datalines start has its data and terminator, a label its colon
+TokEnd(i) == IF i < Len(S.toks) THEN S.toks[i+1].c ELSE S.toks[i].c
+DoneBalanced ==
+  phase = "done" =>
+    LET ts == S.toks
+        starts == Cardinality({i \in 1..Len(ts) : ts[i].ty = "StringExprStart"})
+        ends == Cardinality({i \in 1..Len(ts) : ts[i].ty \in StrExprEndTypes})
+    IN /\ starts = ends
+       /\ \A i \in 1..Len(ts) :
+             /\ (ts[i].ty = "DatalinesStart" =>
+                   (i + 2 <= Len(ts) /\ ts[i+1].ty = "DatalinesData" /\ ts[i+2].ty = "SEMI"))
+             /\ (ts[i].ty = "MacroLabel" =>
+                   \E j \in i+1..Len(ts) : /\ ts[j].ty = "COLON" /\ ts[j].ch = "HIDDEN"
+                                            /\ \A k \in i+1..j-1 : ts[k].ty \in {"WS", "CStyleComment"})
+\* C09 (design level): when lexing is done every 'missing expected X' error has a zero-width X token
+\* at its position
+MissTok(k) ==
+  CASE k = "MissingExpectedRParen" -> "RPAREN" [] k = "MissingExpectedAssign" -> "ASSIGN"
+    [] k = "MissingExpectedLParen" -> "LPAREN" [] k = "MissingExpectedComma" -> "COMMA"
+    [] k = "MissingExpectedFSlash" -> "FSLASH" [] k = "MissingExpectedSemiOrEOF" -> "SEMI" [] OTHER -> ""
+DoneErrPairs ==
+  phase = "done" =>
+    \A e \in 1..Len(S.errs) :
+       MissTok(S.errs[e].k) # "" =>
+         \E i \in 1..Len(S.toks) : /\ S.toks[i].ty = MissTok(S.errs[e].k)
+                                    /\ S.toks[i].c = S.errs[e].c /\ TokEnd(i) = S.toks[i].c
 \* progress (C01): a completed main-loop step never leaves cursor and stack unchanged
 Progress == [][(phase = "lex" /\ phase' = "lex" /\ S' # S) => ~(S'.pos = S.pos /\ S'.modes = S.modes)]_vars
 
